@@ -52,6 +52,8 @@ def write_inputs(rng, work, fmt, delim, k):
     paths = []
     labels = ["1", "10", "2", "9"]
     for i in range(k):
+        if i > 0 and rng.random() < 0.5:
+            labels = sorted(labels, key=float)[: rng.randint(2, 3)]      # a later file with fewer categories and a smaller range
         rows = []
         for a in ["ann_b", "ann_a", "C"][: rng.randint(2, 3)]:
             t = 0.0
@@ -202,6 +204,9 @@ def run(tier, rep):
                          "alpha": float(getattr(dissimilarity, "alpha", float("nan"))), "beta": float(getattr(dissimilarity, "beta", float("nan"))),
                          "delta_empty": float(dissimilarity.delta_empty) if dissimilarity is not None else None,
                          "cat_delta_empty": float(getattr(getattr(dissimilarity, "categorical_dissim", None), "delta_empty", float("nan"))),
+                         "cat_categories": (None if getattr(getattr(dissimilarity, "categorical_dissim", None), "categories", None) is None
+                                            else list(dissimilarity.categorical_dissim.categories)),
+                         "file_categories": list(self.categories),
                          "sampler": "StatisticalContinuumSampler" if sampler is None else type(sampler).__name__,
                          "precision": precision_level, "n_samples": n_samples, "fast": fast, "soft": soft,
                          "ground_truth": "all" if ground_truth_annotators is None else list(ground_truth_annotators)})
@@ -243,6 +248,9 @@ def run(tier, rep):
                     "delta_empty": float(eff["delta_empty"]), "cat_delta_empty": float(eff["delta_empty"]), "sampler": eff["sampler"],
                     "precision": float(eff["precision"]), "n_samples": int(eff["n_samples"]), "fast": True, "soft": False, "ground_truth": "all"}
             diff = {k: (cfg[k], want[k]) for k in want if cfg[k] != want[k]}
+            # a category-aware dissimilarity must have been built from THIS file's categories
+            if cfg["cat_categories"] is not None and cfg["cat_categories"] != cfg["file_categories"]:
+                diff["cat_categories"] = (cfg["cat_categories"], cfg["file_categories"])
             if diff:
                 rep.violation("cli.option_not_effective." + "+".join(sorted(diff)), dict(detail, used_vs_spec=diff))
                 break
